@@ -1,6 +1,7 @@
 package main
 
 import (
+	"math"
 	"context"
 	"math/rand"
 	"strings"
@@ -56,6 +57,9 @@ func c05Monitor(reqs []c05Req) []string {
 	for _, r := range reqs {
 		if !r.Acc {
 			continue
+		}
+		if r.Nonce < r.Now-int64(store.ExpireNonce)-int64(5*time.Second) {
+			v = append(v, fmt.Sprintf("c05-stale-accepted: id %d: nonce %d was accepted at %d although it is older than the freshness window (%s)", r.ID, r.Nonce, r.Now, store.ExpireNonce))
 		}
 		if seen[r.ID] && r.Nonce <= last[r.ID] {
 			v = append(v, fmt.Sprintf("c05-not-increasing: id %d accepted nonce %d after %d", r.ID, r.Nonce, last[r.ID]))
@@ -174,6 +178,10 @@ func runC05(ctx *Ctx) {
 				n, what = now+int64(rng.Intn(300))*1e9, "future-dated"
 			case 8:
 				n, what = int64(rng.Intn(3))-1, "tiny"
+				if rng.Intn(2) == 0 {
+					// as far from the clock as a nonce can be: still just a number to compare
+					n, what = []int64{math.MinInt64, math.MinInt64 + 1, -7500000000000000000, math.MaxInt64, math.MaxInt64 - 1}[rng.Intn(5)], "extreme"
+				}
 			default:
 				n, what = lastAcc[id]+int64(1+rng.Intn(3)), "last accepted plus a little"
 			}
